@@ -92,6 +92,7 @@ func c06(p *core.Prog, r *core.Report) {
 		}
 		if rd != nil {
 			check("C06-R1", rd, n+".read layout", specStr)
+			readReportsTruncation(p, r, rd, "C06-R4")
 		}
 	}
 	if covered < 10 {
@@ -631,20 +632,40 @@ func c06Encode(p *core.Prog, r *core.Report) {
 			continue
 		}
 		okc := false
+		maxLen := int64(255)
+		if strings.Contains(name, "16") {
+			maxLen = 65535
+		}
+		why := "over-long strings are silently truncated"
 		for _, c := range core.CallsIn(f, "typed.WriteBuffer.setErr") {
 			fs := factsAt(c.Block())
 			for _, cm := range fs.cmps {
-				if cm.Op != token.NEQ {
+				// int(T(len(s))) != len(s)
+				if cm.Op == token.NEQ {
+					lx, ly := lenOperand(cm.X), lenOperand(cm.Y)
+					if (lx != nil) != (ly != nil) || lenThroughTrunc(cm.X) || lenThroughTrunc(cm.Y) {
+						okc = true
+					}
 					continue
 				}
-				// int(T(len(s))) != len(s)
-				lx, ly := lenOperand(cm.X), lenOperand(cm.Y)
-				if (lx != nil) != (ly != nil) || lenThroughTrunc(cm.X) || lenThroughTrunc(cm.Y) {
+				// or an exact comparison with the largest representable length:
+				// len > max / len >= max+1 (anything else rejects valid lengths or admits over-long ones)
+				if lenOperand(cm.X) == nil {
+					continue
+				}
+				k, isK := core.ConstInt(cm.Y)
+				if !isK {
+					continue
+				}
+				switch {
+				case cm.Op == token.GTR && k == maxLen, cm.Op == token.GEQ && k == maxLen+1:
 					okc = true
+				default:
+					why = fmt.Sprintf("the length limit is tested as len %s %d; the prefix holds lengths up to %d exactly", cm.Op, k, maxLen)
 				}
 			}
 		}
-		r.Check(okc, "C06-R5", fname(f), "over-long value flagged (setErr under a round-trip test of the length)", p.Pos(f.Pos()), "length that does not survive truncation to the prefix width sets the sticky error", "over-long strings are silently truncated")
+		r.Check(okc, "C06-R5", fname(f), "over-long value flagged (setErr under a round-trip test of the length)", p.Pos(f.Pos()), "length that does not survive truncation to the prefix width sets the sticky error", why)
 	}
 	// R5b: write errors are checked
 	for _, cs := range p.CallsTo("message.write", "Frame.write", "FrameHeader.write", "Span.write") {
@@ -743,4 +764,65 @@ func calleeShort(c ssa.CallInstruction) string {
 		return core.ShortKey(o)
 	}
 	return "call"
+}
+
+// readReportsTruncation: a message decoder that read from the buffer does not
+// report success without consulting the buffer's sticky error afterwards: a
+// body cut anywhere after the last check would otherwise decode "successfully"
+// (the typed buffer returns zero values once it has failed).
+func readReportsTruncation(p *core.Prog, r *core.Report, f *ssa.Function, rule string) {
+	if f.Signature.Results().Len() != 1 {
+		return
+	}
+	isRead := func(i ssa.Instruction) bool {
+		c, ok := i.(*ssa.Call)
+		if !ok {
+			return false
+		}
+		o := core.CalleeObj(c)
+		if o == nil {
+			return false
+		}
+		k := core.ShortKey(o)
+		if strings.HasPrefix(k, "typed.ReadBuffer.Read") || strings.HasPrefix(k, "typed.ReadBuffer.Skip") {
+			return true
+		}
+		// a nested decoder given the same buffer
+		if g := c.Call.StaticCallee(); g != nil && p.InAnalysed(g) && g != f {
+			for _, a := range c.Call.Args {
+				if strings.HasSuffix(a.Type().String(), "typed.ReadBuffer") {
+					return true
+				}
+			}
+		}
+		return false
+	}
+	isErrCheck := func(i ssa.Instruction) bool {
+		if _, ok := core.IsCall(i, "typed.ReadBuffer.Err"); ok {
+			return true
+		}
+		// a nested decoder's returned error counts when it is itself returned / tested
+		return false
+	}
+	isNilRet := func(i ssa.Instruction) bool {
+		ret, ok := i.(*ssa.Return)
+		return ok && core.IsNilConst(core.ReturnValues(ret)[0])
+	}
+	how := ""
+	n := 0
+	core.EachInstr(f, func(i ssa.Instruction) {
+		if !isRead(i) || how != "" {
+			return
+		}
+		n++
+		// a nested decoder call whose error is returned directly is fine
+		res := core.ReachAvoiding(f, i, isNilRet, isErrCheck, nil)
+		if res.Found {
+			how = "after the read at " + p.Pos(i.Pos()) + " the decoder can return nil without looking at the buffer's error: a truncated body is accepted"
+		}
+	})
+	if n == 0 {
+		return
+	}
+	r.Check(how == "", rule, fname(f), "decoder reports truncation (no nil return after a read without an Err() check)", p.Pos(f.Pos()), "every success return after a read passes ReadBuffer.Err()", how)
 }
